@@ -644,6 +644,9 @@ func (j *Judge) Step(req *Request, resp *Response) []Finding {
 	case "PUT":
 		nn := t.N[p.Path]
 		fs = append(fs, j.learn(p.Path, nn, resp.H.Get("Etag"), resp.H.Get("Last-Modified"), class, "PUT")...)
+		if n != nil && !n.Dir && n.Tag != "" && nn != nil && nn.Tag == n.Tag && !bytes.Equal(n.Data, nn.Data) {
+			add("C04", "tag-reused", "the replaced content (%d bytes %q) and the new content (%d bytes %q) are announced under the same entity tag %s: a tag learned before the change still satisfies If-Match", len(n.Data), clip(n.Data), len(nn.Data), clip(nn.Data), nn.Tag)
+		}
 	case "OPTIONS":
 		if p.OK {
 			fs = append(fs, j.checkOptions(resp, n, class)...)
